@@ -16,7 +16,7 @@ INF = '1e+30'
 def render(m):
     """independent writer for the QPLIB text format (.qplib)"""
     O, V, C = m['type']
-    L = [m['name'] + ' trailing words are ignored', m['type'], m['sense'] + '  # sense', f"{m['n']} # variables"]
+    L = (['! leading comment line', '# another one'] if m.get('comment') else []) + [m['name'] + ' trailing words are ignored', m['type'], m['sense'] + '  # sense', f"{m['n']} # variables"]
     hasc = C not in 'NB'
     if hasc:
         L.append(f"{m['m']} # constraints")
@@ -268,10 +268,11 @@ def build(chk):
             m, vals = mk_model(P, 'QGQ')
             lines = render(m)
             original = list(lines)
+            first = lines.index(m['type'])
             if fault == 'bad-type-letter':
-                lines[1] = 'QXQ'
+                lines[first] = 'QXQ'
             elif fault == 'bad-sense':
-                lines[2] = 'maximise'
+                lines[first + 1] = 'maximise'
             elif fault == 'bad-var-type':
                 lines = [ln.replace(m['vt_default'] + ' # default variable type', '7 # default variable type') for ln in lines]
             elif fault == 'non-number':
@@ -290,6 +291,11 @@ def build(chk):
 
             if lines == original:
                 raise Inconclusive(f'fault injection {fault}: the rendered file was not changed')
+            # the physical line (1-based, comment and blank lines counted) the error has to name
+            if len(lines) < len(original) or fault == 'count-too-large':
+                bad_line = len(lines)
+            else:
+                bad_line = 1 + [i for i, (x, y) in enumerate(zip(lines, original)) if x != y][0]
 
             def witness(mdl):
                 from mirsym.models import rust_f64_display
@@ -299,13 +305,22 @@ def build(chk):
                         if k in ln:
                             ln = ln.replace(k, rust_f64_display(valconv.fv_to_float(v, mdl)))
                     out.append(ln)
-                return {'op': 'qplib_load', 'text': '\n'.join(out) + '\n'}, (lambda res: 'err' not in res), f'fault {fault}:\n' + '\n'.join(out)
+                def judge(res):
+                    if 'err' not in res:
+                        return True
+                    mm = re.search(r'at line (\d+)', res['err'])
+                    return mm is None or int(mm.group(1)) != bad_line
+                return {'op': 'qplib_load', 'text': '\n'.join(out) + '\n'}, judge, f'fault {fault} on line {bad_line}:\n' + '\n'.join(out)
             try:
                 res = run_import(P, lines)
             except RustPanic as e:
                 P.fail('fault-reported-not-panic', witness, role=fault + ':panic')
                 return
-            P.require('fault-reported-as-error', res.vname != 'Ok', witness, role=fault)
+            if not P.require('fault-reported-as-error', res.vname != 'Ok', witness, role=fault):
+                return
+            data = getattr(res.f[0], 'data', None)
+            ln = deref(data).f[0] if isinstance(deref(data), Agg) and 'QplibParseError' in str(deref(data).ty) else None
+            P.require('error-carries-the-line-number', ln == bad_line, witness, role=fault + ':line-number')
         return h
     for f in FAULTS:
         chk.harness(f'fault:{f}', mk_fault(f), max_paths=5000)
